@@ -1,6 +1,7 @@
 package keeper
 
 import (
+	storetypes "cosmossdk.io/store/types"
 	sdk "github.com/cosmos/cosmos-sdk/types"
 
 	"github.com/functionx/fx-core/v8/x/crosschain/types"
@@ -31,4 +32,22 @@ func (k Keeper) GetPendingExecuteClaim(ctx sdk.Context, eventNonce uint64) (type
 func (k Keeper) DeletePendingExecuteClaim(ctx sdk.Context, eventNonce uint64) {
 	store := ctx.KVStore(k.storeKey)
 	store.Delete(types.GetPendingExecuteClaimKey(eventNonce))
+}
+
+// pendingBridgeCallResults returns the nonces of the outgoing bridge calls whose observed result
+// is still waiting to be executed.
+func (k Keeper) pendingBridgeCallResults(ctx sdk.Context) map[uint64]bool {
+	nonces := make(map[uint64]bool)
+	iterator := storetypes.KVStorePrefixIterator(ctx.KVStore(k.storeKey), types.PendingExecuteClaimKey)
+	defer iterator.Close()
+	for ; iterator.Valid(); iterator.Next() {
+		var claim types.ExternalClaim
+		if err := k.cdc.UnmarshalInterface(iterator.Value(), &claim); err != nil {
+			panic(err)
+		}
+		if result, ok := claim.(*types.MsgBridgeCallResultClaim); ok {
+			nonces[result.Nonce] = true
+		}
+	}
+	return nonces
 }
